@@ -83,6 +83,8 @@ type Session struct {
 	anc      map[*ssa.BasicBlock]map[*ssa.BasicBlock]bool
 	mu       sync.Mutex
 	trackAlloc bool
+	factWeak   []string // per fact: "" or the type key of a global type-invariant axiom (relevant only through that type's fields)
+	weakKey    string
 	inputs   []*inSpec
 	inputTerms []string
 	extRefs  []string // references of slices received as arguments
@@ -153,6 +155,7 @@ func (s *Session) fact(f string) {
 	}
 	s.facts = append(s.facts, "(assert "+f+")")
 	s.factBlk = append(s.factBlk, s.curBlk)
+	s.factWeak = append(s.factWeak, s.weakKey)
 }
 
 // ancestors of b in the top-level CFG (forward edges only), including b
@@ -316,16 +319,18 @@ func symbolsOf(t string) []string { return identRe.FindAllString(t, -1) }
 // relevantFacts keeps the facts connected to the goal through shared declared constants (dropping facts only weakens the hypotheses).
 func (s *Session) relevantFacts(o *Obligation) []string {
 	facts := s.facts[:o.NFacts]
+	weak := s.factWeak[:o.NFacts]
 	if o.Blk != nil {
 		// path pruning: facts produced in blocks that cannot reach the obligation's block say nothing about its paths
 		anc := s.ancestors(o.Blk)
-		var kept []string
+		var kept, keptW []string
 		for i, f := range facts {
 			if b := s.factBlk[i]; b == nil || anc[b] {
 				kept = append(kept, f)
+				keptW = append(keptW, weak[i])
 			}
 		}
-		facts = kept
+		facts, weak = kept, keptW
 	}
 	if o.Cover {
 		return facts
@@ -359,8 +364,13 @@ func (s *Session) relevantFacts(o *Obligation) []string {
 				continue
 			}
 			hit := len(infos[i].syms) == 0
+			marker := ""
+			if weak[i] != "" {
+				// the invariant of a type matters only where an object of that type is looked into
+				marker = "f:" + weak[i] + "."
+			}
 			for _, sym := range infos[i].syms {
-				if rel[sym] {
+				if rel[sym] && (marker == "" || strings.Contains(sym, marker)) {
 					hit = true
 					break
 				}
@@ -369,7 +379,9 @@ func (s *Session) relevantFacts(o *Obligation) []string {
 				infos[i].in = true
 				changed = true
 				for _, sym := range infos[i].syms {
-					rel[sym] = true
+					if marker == "" || strings.Contains(sym, marker) {
+						rel[sym] = true
+					}
 				}
 			}
 		}
@@ -525,9 +537,11 @@ func (s *Session) errConst(name string) string {
 		s.declare(c, "Any")
 		s.facts = append(s.facts, "(assert (> (a.tag "+c+") 0))")
 		s.factBlk = append(s.factBlk, nil)
+		s.factWeak = append(s.factWeak, "")
 		if s.declSet["glob_strconv_ErrRange"] && s.declSet["glob_strconv_ErrSyntax"] {
 			s.facts = append(s.facts, "(assert (distinct glob_strconv_ErrRange glob_strconv_ErrSyntax))")
 			s.factBlk = append(s.factBlk, nil)
+			s.factWeak = append(s.factWeak, "")
 		}
 		s.assume("strconv.ErrRange and strconv.ErrSyntax are distinct non-nil values that nothing reassigns")
 	}
